@@ -1,6 +1,6 @@
 """C09 - see DESIGN.md 5/C09 (Lifecycle.tla)."""
 from harness import core
-from checks import suite_lifecycle, suite_drolifecycle, suite_sharing, suite_incremental, suite_interleave
+from checks import suite_lifecycle, suite_drolifecycle, suite_sharing, suite_incremental, suite_interleave, suite_declorder
 
 
 def main(tier):
@@ -17,6 +17,8 @@ def main(tier):
     suite_sharing.run(rep, tier, props=('C09',))
     # solve / extend / solve again versus a build from scratch on the deterministic model classes and ro
     suite_incremental.run(rep, tier, props=('C09',))
+    # every legal order of declaring the parts of one ro model (DeclOrder.tla)
+    suite_declorder.run(rep, tier, props=('C09',))
     if tier == 'thorough':
         # two models of any classes under every interleaving (Interleave.tla); in the quick tier this suite runs under C17
         suite_interleave.run(rep, tier, props=('C09',))
